@@ -205,7 +205,9 @@ def vc_reset(ctx):
     found = []
     res = {}
     for o in TOTAL:
-        evr = Evaluator(facts, classify=gate_classifier(found), assumption={'gate': o})
+        # where the code first asks whether self has an entry for the actor at all, the decision is judged for the case that it
+        # has: removing an absent entry (or not) changes nothing
+        evr = Evaluator(facts, classify=gate_classifier(found), bool_atom=lambda t: clock_presence_atom(t, 1), assumption={'gate': o, 'present': True})
         rc = Reach(facts, body, evr)
         if fr:
             inner = rc._reach(fr[0], {fr[1]})
@@ -265,11 +267,12 @@ def vc_intersect(ctx):
 
     def classify(a, b, t):
         for x, y, orient in ((a, b, 'fwd'), (b, a, 'rev')):
-            if is_call(x, 'get', self_adt='VClock') and len(x[2]) == 2:
-                k = versionless(x[2][1])
+            cg = clock_get_of(x)
+            if cg is not None:
+                k = versionless(cg[1])
                 v = versionless(y)
                 if k[0] == 'field' and v[0] == 'field' and k[1] == v[1] and {k[2], v[2]} == {'0', '1'}:
-                    found.append({'item': k[1], 'clock': versionless(x[2][0]), 'k': k, 'v': v})
+                    found.append({'item': k[1], 'clock': versionless(cg[0]), 'k': k, 'v': v})
                     return ('eq', orient)
         return None
     res = {}
@@ -354,9 +357,9 @@ def vc_glb(ctx):
                 if is_call(ts, 'min', local=False) and len(ts[2]) == 2:
                     a, b = versionless(ts[2][0]), versionless(ts[2][1])
                     for x, y in ((a, b), (b, a)):
-                        if is_call(y, 'get', self_adt='VClock') and x[0] == 'field' and x[2] == '1':
-                            k = versionless(y[2][1])
-                            pc = param_path(y[2][0])
+                        if clock_get_of(y) is not None and x[0] == 'field' and x[2] == '1':
+                            k = versionless(clock_get_of(y)[1])
+                            pc = param_path(clock_get_of(y)[0])
                             if k == ('field', x[1], '0') and pc and pc[0] == 2:
                                 mins.append(t)
                                 return 'min'
@@ -435,10 +438,10 @@ def vc_validate(ctx):
             if xv[0] == 'field' and xv[2] == 'counter' and yv[0] == 'binop' and yv[1] == 'Add':
                 ops = [yv[2], yv[3]]
                 one = [o for o in ops if o[0] == 'const' and o[1] == 1]
-                get = [o for o in ops if is_call(o, 'get', self_adt='VClock')]
+                get = [clock_get_of(o) for o in ops if clock_get_of(o) is not None]
                 if one and get:
                     g = get[0]
-                    if versionless(g[2][1]) == ('field', xv[1], 'actor') and param_path(g[2][0]) and param_path(g[2][0])[0] == 1:
+                    if versionless(g[1]) == ('field', xv[1], 'actor') and param_path(g[0]) and param_path(g[0])[0] == 1:
                         found.append(xv[1])
                         return ('gap', orient)
         return None
@@ -506,6 +509,36 @@ def vc_merge(ctx):
             if src is not None and whole_iteration_over(src, 2):
                 sites.append(bb)
     if not sites:
+        # apply written out in the loop: for every entry of other, its counter is stored for its actor whenever it is larger than
+        # self's counter for that actor, and never when it is smaller
+        for bb, c in _dots_writes(it, ('insert',)):
+            fr = iteration_frame(it, bb)
+            if fr is None or len(c.args) != 3:
+                continue
+            found, res = [], {}
+            for o in TOTAL:
+                rc = Reach(facts, body, Evaluator(facts, classify=gate_classifier(found), assumption={'gate': o}))
+                res[o] = (bb in rc._reach(fr[0], {fr[1]}), rc.must_pass([bb], start=fr[0], stops=(fr[1],)))
+            if not found:
+                continue
+            g = found[0]
+            src = as_item(g['dot'])
+            from .loops import loop_of_block
+            lp = loop_of_block(it, bb)
+            errs = []
+            if not (src is not None and whole_iteration_over(src, 2)) or lp is None or lp.early_exits():
+                errs.append('the loop does not range over every dot of other (%s; early exits %s)' % (fmt(src, 4) if src else None, lp.early_exits() if lp else None))
+            if versionless(c.args[1].val) != ('field', g['dot'], g.get('kf', 'actor')) or versionless(c.args[2].val) != ('field', g['dot'], g.get('vf', 'counter')):
+                errs.append('what is stored is not (actor, counter) of the compared dot')
+            if not res[LT][1]:
+                errs.append('a dot of other that is ahead of self can be skipped by merge')
+            if res[GT][0]:
+                errs.append('a dot of other that is behind self overwrites the larger counter')
+            if not Reach(facts, body, Evaluator(facts)).must_pass([fr[1]]):
+                errs.append('the loop over other is not reached on every path')
+            ctx.check(not errs, 'merge', body, 'every dot of other is stored when ahead of self, never when behind (apply written inline)',
+                      errs[0] if errs else '', line=c.line, details={'ord(self.get(actor), counter) -> (store may, must)': res})
+            return
         ctx.fail('merge', body, 'no loop applying every dot of other to self')
         return
     fr = iteration_frame(it, sites[0])
@@ -705,6 +738,31 @@ def dot_pcmp(ctx):
         res[same] = (any(b in rc.reachable for b, _ in none_s), any(b in rc.reachable for b, _ in cmp_s),
                      rc.must_pass([b for b, _ in none_s]) if none_s else False, rc.must_pass([b for b, _ in cmp_s]) if cmp_s else False)
     ok = res[True][3] and not res[True][0] and res[False][2] and not res[False][1]
+    if not ok and res[False][2] and not res[True][0]:
+        # the counter comparison written out (`if a < b { Less } else if a > b { Greater } else { Equal }`): for each ordering of
+        # the two counters the Ordering wrapped in the returned Some is traced back to the variant literals that reach it
+        def classify(a, b, t):
+            av, bv = versionless(a), versionless(b)
+            if av == ('field', ('param', 1), 'counter') and bv == ('field', ('param', 2), 'counter'):
+                return ('c', 'fwd')
+            if bv == ('field', ('param', 1), 'counter') and av == ('field', ('param', 2), 'counter'):
+                return ('c', 'rev')
+            return None
+        want = {LT: 0, EQ: 1, GT: 2}     # variant index of core::cmp::Ordering
+        good = True
+        for o in TOTAL:
+            rc = Reach(facts, body, Evaluator(facts, classify=classify, bool_atom=atom, assumption={'same': True, 'c': o}))
+            rets = [b for b in rc.return_blocks() if b in rc.reachable]
+            got = set()
+            for rb in rets:
+                ops_ = rc._agg_operand_sites(0, rb, 0, 0)
+                if not ops_:
+                    got.add(None)
+                    continue
+                for l_, b_ in ops_:
+                    got |= set(rc._values_at(l_, b_))
+            good = good and got == {('variant', want[o])}
+        ok = good
     ctx.check(ok, 'partial_cmp', body, 'counter comparison under equal actors, None otherwise',
               'Dot::partial_cmp does not return the counter comparison exactly for equal actors and None otherwise', details={'same_actor -> (None may, cmp may, None must, cmp must)': {str(k): v for k, v in res.items()}})
 
